@@ -115,7 +115,8 @@ def gen_robots(rng, site, agent_token):
 
     def maybe_comment():
         if comments and rng.random() < 0.5:
-            lines.append(rng.choice(['# note\n', '   # indented note\n', '\t# tabbed note\n', '#\n', '  #Disallow: /\n']))
+            lines.append(rng.choice(['# note\n', '   # indented note\n', '\t# tabbed note\n', '#\n', '  #Disallow: /\n',
+                                     '# r\xe9pertoire priv\xe9 (Latin-1 bytes, not UTF-8)\n', '# \xff\xfe\n']))
     for gi, (agent, rs) in enumerate(groups):
         maybe_comment()
         lines.append('User-agent: %s\n' % agent)
@@ -136,7 +137,9 @@ def gen_case(rng):
     return {'site_seed': rng.randrange(1 << 30), 'n_pages': rng.choice([5, 8, 12]), 'mode': mode,
             'robots_seed': rng.randrange(1 << 30), 'concurrent': rng.choice([1, 1, 2, 4, 6]),
             'agent': rng.choice([None, None, 'MyBot/1.0 (+http://x.test)', 'Mozilla/5.0 (compatible; wpull-like)']),
-            'hosts': rng.choice([1, 1, 2, 2, 3]), 'delay_seed': rng.randrange(1 << 30)}
+            'hosts': rng.choice([1, 1, 2, 2, 3]), 'delay_seed': rng.randrange(1 << 30),
+            # tag filters must not hide a page's robots meta element
+            'tag_options': rng.choice([[], [], ['--follow-tags', 'a,area'], ['--ignore-tags', 'meta,link'], ['--follow-tags', 'a']])}
 
 
 def build(case):
@@ -191,7 +194,7 @@ def run_case(case, part):
             # reports the unbounded refetching from the log
             return {'status': 404, 'reason': 'Not Found', 'headers': [('Content-Type', 'text/plain')], 'body': b'breaker'}
         if req['target'] == '/robots-real.txt':
-            return {'status': 200, 'headers': [('Content-Type', 'text/plain')], 'body': text.encode()}
+            return {'status': 200, 'headers': [('Content-Type', 'text/plain')], 'body': text.encode('latin-1')}
         if mode == '404' or mode == 'nofollow':
             return {'status': 404, 'reason': 'Not Found', 'headers': [('Content-Type', 'text/plain')], 'body': b'none'}
         if mode == '5xx':
@@ -202,7 +205,8 @@ def run_case(case, part):
             filler = [b'', b'<html>moved</html>', b'<html><body>' + b'Allow: /\nmoved to /robots-real.txt ' * 120 + b'</body></html>']
             return {'status': 301, 'reason': 'Moved', 'headers': [('Location', '/robots-real.txt')],
                     'body': filler[case['robots_seed'] % 3]}
-        return {'status': 200, 'headers': [('Content-Type', 'text/plain')], 'body': text.encode()}
+        # (sent as Latin-1: a comment with an accented letter is then not valid UTF-8, which must not matter)
+        return {'status': 200, 'headers': [('Content-Type', 'text/plain')], 'body': text.encode('latin-1')}
     handlers = {s.host: sitegen.make_handler(s, robots=robots_handler) for s in sites}
 
     def handler(req):
@@ -223,6 +227,7 @@ def run_case(case, part):
                                            '--tries', '2']
         if agent:
             argv += ['--user-agent', agent]
+        argv += case.get('tag_options') or []
         res = crawl.run_app(argv, {s.host.split(':')[0]: addrs[0 if same_name else i] for i, s in enumerate(sites)})
         rows = crawl.read_table(db) if os.path.exists(db) else []
         log = srv.log.snapshot()
